@@ -2,7 +2,7 @@ import os
 # Repairs of known-findings.d/txn-fix-* that the tree under test contains: any of webhooks, syncdb, settings, pin
 # (comma separated). Selects the repaired entries of Model/Txn.lean (`shapeTable fixed`, `webhooksCtorOf fixed`) in
 # the driver; a selection that lags behind the tree is reported as a shape_fact/… or ctor_fact/… mismatch.
-TXN_FIXED = ""
+TXN_FIXED = "webhooks,syncdb,settings,pin"
 PROP = dict(
     engine="txn", harness="txn", driver="drv_txn",
     driver_args=["--fixed=" + os.environ.get("VERIF_TXN_FIXED", TXN_FIXED)],
